@@ -468,6 +468,7 @@ func init() {
 var c14Pattern = regexp.MustCompile(`^(ForEach|Map|Filter|Reduce|All)[A-Z]?|Slice$`)
 
 func runC14(c *ev.Ctx) {
+	defer sizeSweep(c, "C14")
 	maxLen, maxKeys := 4, 3
 	if c.Thorough() {
 		maxLen, maxKeys = 5, 4
